@@ -1105,7 +1105,7 @@ fn check_ghost_only(what: &str, s: &str) -> Result<(), String> {
     if t.is_empty() {
         return Ok(());
     }
-    let ok = ["proof {", "proof{", "assert(", "assert ", "let ghost ", "let tracked ", "broadcast use", "assume("];
+    let ok = ["proof {", "proof{", "assert(", "assert ", "let ghost ", "let tracked ", "broadcast use", "assume(", "hide("];
     if ok.iter().any(|p| t.starts_with(p)) {
         Ok(())
     } else {
